@@ -75,5 +75,27 @@ func (v *VerifAuth) Dump(ip string) (sessions int, hits int) {
 	return
 }
 
+// Expiry returns the STORED expiry of a session token (what hasValidSession compares against).
+func (v *VerifAuth) Expiry(token string) (time.Time, bool) {
+	v.a.mu.Lock()
+	defer v.a.mu.Unlock()
+	t, ok := v.a.sessions[token]
+	return t, ok
+}
+
+// TTL is the configured session lifetime.
+func (v *VerifAuth) TTL() time.Duration { return v.a.ttl }
+
+// Tracked is the number of client addresses the limiter currently keeps a history for.
+func (v *VerifAuth) Tracked() int {
+	l := v.a.limiter
+	if l == nil {
+		return 0
+	}
+	l.mu.Lock()
+	defer l.mu.Unlock()
+	return len(l.hits)
+}
+
 // VerifCookieName is the session cookie name.
 const VerifCookieName = sessionCookieName
